@@ -600,6 +600,8 @@ type c19server struct {
 	failReload bool
 	bad        string
 	lastRefused []byte // bytecode of the most recent Reload the server refused
+	refusedWhile string        // what the file held at that moment
+	onDisk       func() string // what the file holds now (harness side)
 }
 
 func (sv *c19server) Reload(bc []byte) error {
@@ -607,6 +609,9 @@ func (sv *c19server) Reload(bc []byte) error {
 	if sv.failReload {
 		sv.failReload = false
 		sv.lastRefused = bc
+		if sv.onDisk != nil {
+			sv.refusedWhile = sv.onDisk()
+		}
 		sv.s.Fault("reload-fails")
 		return fmt.Errorf("injected reload failure")
 	}
@@ -748,9 +753,11 @@ func c19Library(s *sim.Sim, p *sim.Params) {
 		}
 	}
 	clk := &c19clock{base: time.Date(2020, 1, 1, 12, 0, 0, 0, time.UTC)}
+	onDisk := "" // what the file holds at this instant ("\x00gone": nothing readable)
 	put := func(content, how string) {
 		os.WriteFile(file, []byte(content), 0o644)
 		clk.stamp(file, how)
+		onDisk = content
 	}
 	put(c19valid(1), "")
 	bc1, err := c19compile(c19valid(1))
@@ -786,7 +793,7 @@ func c19Library(s *sim.Sim, p *sim.Params) {
 	goods := [][]byte{bc1}
 	confirmed := 0
 	latestCompiles := true
-	onDisk := c19valid(1)
+	sv.onDisk = func() string { return onDisk }
 	// after a Reload that failed on the server side the manager does not retry by itself; the
 	// version stays behind until the file content changes again (identical bytes are no edit)
 	failedFor := "\x00none"
@@ -796,6 +803,14 @@ func c19Library(s *sim.Sim, p *sim.Params) {
 		content := e.content
 		if fi, err := os.Stat(file); err == nil && fi.IsDir() {
 			os.RemoveAll(file)
+		}
+		if e.kind == "valid" && onDisk != "\x00gone" && s.Choose(sim.SWork, 5) == 0 {
+			if _, err := c19compile(onDisk); err == nil {
+				// the developer saves the program that is on disk once more with another layout
+				// (a comment, a blank line): the file changes, what it compiles to does not
+				content = onDisk + "\n# saved again " + fmt.Sprint(i) + "\n"
+				s.Probe("resaved-with-another-layout")
+			}
 		}
 		blip := !slow && (e.kind == "valid" || e.kind == "recreated") && s.Choose(sim.SFault, 4) == 0
 		typo := (!slow || (pre > 0 && stallBudget == 0)) && !blip && (e.kind == "valid" || e.kind == "recreated") && s.Choose(sim.SFault, 4) == 0
@@ -823,6 +838,7 @@ func c19Library(s *sim.Sim, p *sim.Params) {
 			put(content, e.mtime)
 			s.Sleep(110 * time.Millisecond)
 			os.Remove(file)
+			onDisk = "\x00gone"
 			s.Sleep(200 * time.Millisecond)
 			put(content, "")
 		case e.kind == "deleted":
@@ -890,7 +906,10 @@ func c19Library(s *sim.Sim, p *sim.Params) {
 			if reloadFailed {
 				failedFor = onDisk
 			}
-			if failedFor == onDisk || (sv.lastRefused != nil && string(sv.lastRefused) == string(goods[len(goods)-1])) {
+			// (so does a refusal of this very program while the file held what it holds now.
+			// A refusal while the file held something else does not: the file has changed
+			// since, so the manager has to try again)
+			if failedFor == onDisk || (sv.lastRefused != nil && string(sv.lastRefused) == string(goods[len(goods)-1]) && sv.refusedWhile == onDisk) {
 				reloadFailed = true // same bytes as when the server refused the reload: nothing new to load
 			}
 			switch {
